@@ -27,19 +27,24 @@ from harness.smallruns import observables
 from harness.tlc import printed_tuples, run_tlc
 
 
+SCENARIO = "12,60"   # atoms, duration: snapshot sizes cross the buffered-write boundaries, a hundred saves
+
+
 def _cfg(kind: str, dt: float = 10.0):
     from emu_mps import MPSConfig, Solver
     import pulser
 
-    kw = dict(dt=dt, log_level=100, observables=observables(["occupation", "energy"], [0.0, 1 / 3, 2 / 3, 1.0]), optimize_qubit_ordering=False)
+    # observables at every step: the results stored in the snapshot grow, so snapshot sizes cross the buffered-write
+    # boundaries of the I/O layer during the run
+    dur = int(os.environ.get("C27_SCENARIO", SCENARIO).split(",")[1])
+    nst = int(dur // dt)
+    times = [min(1.0, i * dt / dur) for i in range(nst + 1)]
+    kw = dict(dt=dt, log_level=100, observables=observables(["occupation", "energy", "correlation_matrix"], times), optimize_qubit_ordering=False)
     if kind == "dmrg":
         kw["solver"] = Solver.DMRG
     if kind == "noisy":
         kw["noise_model"] = pulser.NoiseModel(relaxation_rate=0.5, dephasing_rate=0.3)
     return MPSConfig(**kw)
-
-
-SCENARIO = "6,60"   # atoms, duration: snapshots larger than one buffered write, dozens of saves
 
 
 def _child(kind: str, workdir: Path, mode: str, n: int | None = None, timeout: int = 1800) -> int:
@@ -117,9 +122,10 @@ def _protocol(records: list[dict], base_name: str) -> tuple[list[list[dict]], li
         return names[x]
 
     saves_spec, saves_kill = [], []
+    open_renames: set = set()
     for k in range(1, nsaves + 1):
         tk = [t for t in ticks if t["save"] == k]
-        ops = [o for o in fsops if o["save"] == k and tk[0]["n"] <= o["n"] <= tk[-1]["n"]]
+        ops = [o for o in fsops if o["save"] == k and tk[0]["n"] <= o["n"] < tk[-1]["n"]]
         first_next = next((t["n"] for t in ticks if t["save"] == k + 1), tk[-1]["n"] + 1)
         # final size of the snapshot written in this save: size of the advertised file when the next save starts / run ends
         end_fs = next((t["fs"] for t in ticks if t["n"] == first_next), tk[-1]["fs"])
@@ -151,6 +157,11 @@ def _protocol(records: list[dict], base_name: str) -> tuple[list[list[dict]], li
                         break
                 if fin is None:
                     fin = first_next
+                # a rename performed while the writer still holds the file open moves a file whose data may still be buffered
+                for o2 in ops:
+                    if o2["fsop"] == "rename" and o2.get("src_open") and o2["n"] > o["n"] and fin <= o2["n"]:
+                        fin = o2["n"] + 1
+                        open_renames.add(k)
                 items.append((fin - 0.5, {"op": "finish", "src": nm(name_at(fin)), "dst": nm(name_at(fin))}))
             elif o["fsop"] == "rename":
                 items.append((float(o["n"]), {"op": "rename", "src": nm(o["src"]), "dst": nm(o["dst"])}))
@@ -215,7 +226,11 @@ def run(ctx: Ctx) -> None:
         for k, sp in enumerate(saves, start=1):
             if k >= 2 and sp:
                 shapes.setdefault(json.dumps(sp), []).append(k)
-        chosen = sorted({2, 3} | {ks[0] for ks in shapes.values()} | {ks[len(ks) // 2] for ks in shapes.values()})
+        chosen = {2, 3}
+        for ks in shapes.values():
+            step = max(1, len(ks) // 5)
+            chosen |= set(ks[::step][:6])
+        chosen = sorted(chosen)
         chosen = [k for k in chosen if k <= len(saves)]
         ctx.coverage.setdefault("protocol_shapes", {})[kind] = {"saves_recorded": len(saves), "distinct_shapes": len(shapes), "saves_injected": chosen}
         ctx.sample({"kind": kind, "save_2_protocol": saves[1], "distinct_shapes": [json.loads(x) for x in list(shapes)[:3]]})
